@@ -790,5 +790,40 @@ pub fn valid_case_strategy(maxv: usize, maxa: usize) -> impl Strategy<Value = Va
                 finish,
                 rejects,
             })
+            .prop_perturb(|mut c, mut rng| {
+                use proptest::prelude::RngCore;
+                // "one frame stamped early/late, then the stream recovers": deltas d, d-k, d+k, d ... whose sum equals n*d
+                // (a constant-rate shortcut that only looks at first/last/sum would flatten it). 15 % of the cases.
+                let r = rng.next_u32();
+                if r % 100 < 15 && c.fps_mode.is_none() {
+                    let d = [3000u32, 3003, 1920, 1500, 3750][(r as usize >> 8) % 5];
+                    c.const_rate = None;
+                    for g in c.video.iter_mut() {
+                        g.ddts = d;
+                    }
+                    for g in c.audio.iter_mut() {
+                        g.dpts = d;
+                    }
+                    let k = 1 + (r >> 16) % (d / 2);
+                    let nv = c.video.len();
+                    if nv >= 5 {
+                        let i = 2 + (rng.next_u32() as usize) % (nv - 4);
+                        c.video[i].ddts = d - k;
+                        c.video[i + 1].ddts = d + k;
+                    }
+                    let na = c.audio.len();
+                    if na >= 5 {
+                        let i = 2 + (rng.next_u32() as usize) % (na - 4);
+                        c.audio[i].dpts = d - k;
+                        c.audio[i + 1].dpts = d + k;
+                    }
+                }
+                // dictionary: timestamps whose bytes spell a box type (a byte search for a fourcc must not hit them)
+                if r % 100 >= 97 {
+                    let magic = [b"trun", b"mdat", b"moov", b"stco", b"tfdt", b"moof", b"stsz", b"ftyp"][(r as usize >> 8) % 8];
+                    c.v_start = u32::from_be_bytes(*magic) as u64;
+                }
+                c
+            })
     })
 }
